@@ -144,8 +144,8 @@ func c17r1(c *Ctx, id string) {
 	if len(envs) != 2 {
 		c.Fail(id, "env-overrides", ad.Pos(), "%d stores are not zero-guarded (expected exactly the two environment overrides of member number and group size)", len(envs))
 	}
-	if n < 27 {
-		c.Undecided(id, "floor", 0, "only %d defaulting stores found (27 confirmed by hand)", n)
+	if n < 20 {
+		c.Undecided(id, "floor", 0, "only %d defaulting stores found (28 on the reference tree; floor 20)", n)
 	}
 }
 
@@ -265,7 +265,7 @@ func c17r2(c *Ctx, id string) {
 			}
 		})
 	}
-	c.Floor(id, 25)
+	c.Floor(id, 15)
 }
 
 func c17r3(c *Ctx, id string) {
